@@ -122,10 +122,28 @@ func runOneMutant(c *Ctx, pd *propDef, m mutation) (out struct {
 		for _, o := range sub.obs {
 			if o.Verdict == "violated" {
 				firedKeys = append(firedKeys, o.Key)
-				if m.Expect == "*" || strings.Contains(o.Key, m.Expect) {
+				if m.Expect == "*" || (!strings.HasPrefix(m.Expect, "!") && strings.Contains(o.Key, m.Expect)) {
 					fired = true
 				}
 			}
+		}
+		if strings.HasPrefix(m.Expect, "!") {
+			// a behaviour-preserving (or repairing) variant: the rule must stay silent
+			quiet := true
+			want := m.Expect[1:]
+			for _, k := range firedKeys {
+				if want == "" || strings.Contains(k, want) {
+					quiet = false
+				}
+			}
+			res := "silent (as required)"
+			if !quiet {
+				res = "FALSE ALARM"
+			}
+			out.res = map[string]string{"mutation": m.Name, "result": res, "violations": strings.Join(firedKeys, "; ")}
+			out.fired = quiet
+			out.det = fmt.Sprintf("behaviour-preserving/repairing variant of %s must NOT be reported under %q; reported: %v", m.File, want, firedKeys)
+			return
 		}
 		res := "reported"
 		if !fired {
